@@ -219,15 +219,28 @@ def build(packages, timeout=3000):
                            stderr=subprocess.STDOUT, text=True, timeout=timeout)
         log("build (for %s): rc=%d %.0fs" % (" ".join(packages), p.returncode, time.time() - t0))
         if p.returncode != 0:
-            broken = set(re.findall(r"could not compile `([^`]+)`", p.stdout))
-            relevant = [b for b in broken if b in packages or not b.startswith("vh-")]
-            if relevant or not broken:
-                raise ToolError("harness build failed (%s):\n%s" % (",".join(relevant), p.stdout[-6000:]))
-            log("ignoring build failure of unrelated harness packages: %s" % ",".join(sorted(broken)))
+            # "could not compile `pkg` (bin "name")" / "(lib)" / plain
+            broken = re.findall(r"could not compile `([^`]+)`(?: \((bin|lib)(?: \"([^\"]+)\")?\))?", p.stdout)
+            fatal = []
+            for pkg, kind, name in broken:
+                if pkg.startswith("vh-") and kind == "bin":
+                    BROKEN_BINS.add(name)       # only fatal if this check later runs that binary
+                elif pkg.startswith("vh-") and pkg not in packages and kind != "lib":
+                    continue
+                else:
+                    fatal.append(pkg)
+            if fatal or not broken:
+                raise ToolError("harness build failed (%s):\n%s" % (",".join(fatal), p.stdout[-6000:]))
+            log("build: ignoring failures of harness bins not (yet) used by this check: %s" % ",".join(sorted(BROKEN_BINS)))
+            BUILD_LOG[0] = p.stdout[-6000:]
     finally:
         fcntl.flock(lock, fcntl.LOCK_UN)
         lock.close()
     return os.path.join(HARNESS, "target", "release")
+
+
+BROKEN_BINS = set()
+BUILD_LOG = [""]
 
 
 def bin_path(name):
@@ -236,6 +249,8 @@ def bin_path(name):
 
 def run_bin(name, args=(), *, input=None, timeout=1200, env=None, cwd=None, check=True):
     """Run a harness binary; returns CompletedProcess (stdout text)."""
+    if name in BROKEN_BINS:
+        raise ToolError("harness binary %s failed to compile:\n%s" % (name, BUILD_LOG[0]))
     e = dict(os.environ)
     if env:
         e.update({k: str(v) for k, v in env.items()})
@@ -306,6 +321,11 @@ class Ctx:
         self.assumptions = []
         self._distinct = set()
         self._printed = set()
+
+    def workfile(self, name):
+        """Path of a scratch file under .work/<id> (directory re-created if something removed it)."""
+        os.makedirs(self.work, exist_ok=True)
+        return os.path.join(self.work, name)
 
     @property
     def quick(self):
